@@ -177,6 +177,14 @@ def run(ck):
               "the condition-rejected exit also sends on_notrans (or does not exist)", ctx,
               cond_rej[0].ast if cond_rej else ctx.node)
 
+    R7 = ck.rule('R03.7', "the transition table holds exactly the rules of EVENTS: one entry (event, "
+                 "state) -> target per listed state, (event, None) for an any-state rule, None targets "
+                 "(forbidding rules) included; 'a|b' strings and sequences of states are equivalent; a "
+                 "duplicate rule, an unknown state or target raises (abstract run of FSM._build_tables "
+                 "on small tables)", 'abstract run', 6)
+    with ck.section('R03.7'):
+        _build_tables_run(ck, R7)
+
     with ck.section('R03.3'):
         # ------------------------------------------------------------------ R03.3
         gk = ck.cfg(CTX, 'MK')
@@ -435,3 +443,58 @@ def run(ck):
 def _get_chain(a, b) -> bool:
     """`.get(specific, SENTINEL)` followed by a test is another accepted idiom; not used today."""
     return False
+
+
+def _build_tables_run(ck, R7):
+    """FSM._build_tables interpreted on small STATES / EVENTS tables (TIMERS empty, no callbacks): the
+    resulting _ct_transition / _ct_events are compared with the documented reading of EVENTS."""
+    from sa.minieval import MiniEval
+    prog = ck.prog
+    fsm = prog.cls('fsm:FSM')
+    bt = prog.resolve_method(fsm, '_build_tables')
+    ck.need(R7, bt is not None, "FSM._build_tables not found")
+
+    def resolve(text):
+        for pre in ('cls.', 'self.'):
+            if text.startswith(pre) and text[len(pre):].isidentifier():
+                f_ = prog.resolve_method(fsm, text[len(pre):])
+                if f_ is not None and f_.cls is fsm and not prog.is_dummy(f_):
+                    return f_.node
+        if text.isidentifier():
+            b = prog.lookup(fsm.module, text)
+            if b is not None and b[0] == 'func':
+                return b[1].node
+        return None
+    STATES = ('a', 'b', 'c')
+    cases = [
+        ("any-state rule, forbidding rule for one state, '|' string, sequence",
+         [('e', None, 'b'), ('e', ('a',), None), ('f', 'a|b', 'c'), ('g', ['c'], 'a')],
+         {('e', None): 'b', ('e', 'a'): None, ('f', 'a'): 'c', ('f', 'b'): 'c', ('g', 'c'): 'a'}, {'e', 'f', 'g'}),
+        ("forbidding any-state rule", [('e', None, None)], {('e', None): None}, {'e'}),
+        ("spaces around '|' names", [('e', ' a | c ', 'b')], {('e', 'a'): 'b', ('e', 'c'): 'b'}, {'e'}),
+        ("specific rule listed before the any-state rule", [('e', 'b', None), ('e', None, 'a')],
+         {('e', 'b'): None, ('e', None): 'a'}, {'e'}),
+        ("duplicate rule for one state", [('e', 'a', 'b'), ('e', 'a|c', 'c')], 'raise', None),
+        ("duplicate any-state rule", [('e', None, 'b'), ('e', None, None)], 'raise', None),
+        ("unknown source state", [('e', 'x', 'b')], 'raise', None),
+        ("unknown target state", [('e', 'a', 'x')], 'raise', None),
+    ]
+    for label, events, want_tr, want_ev in cases:
+        env = {'cls': 'CLS', 'cls.STATES': STATES, 'cls.TIMERS': {}, 'cls.EVENTS': events,
+               'cls._ct_handlers': {}, 'block.check_name': lambda *a: None, 'check_name': lambda *a: None,
+               'vars': lambda c: {}, 'utils.time_period': lambda d: d, 'cls.__dict__': {}}
+        me = MiniEval(R7, env, resolve)
+        out = me.run(bt.node.body)
+        ck.abstract_cases += 1
+        if want_tr == 'raise':
+            ok = out[0] == 'raise' and 'ValueError' in str(out[1])
+            ck.ob(R7, f"{bt.fid} :: {label}", ok, "refused with ValueError" if ok else
+                  f"EVENTS = {events}: not refused ({out}; table {me.env.get('cls._ct_transition')})", bt, bt.node)
+        else:
+            got_tr, got_ev = me.env.get('cls._ct_transition'), me.env.get('cls._ct_events')
+            ok = out == ('return', None) and got_tr == want_tr and set(got_ev or ()) == want_ev
+            ck.ob(R7, f"{bt.fid} :: {label}", ok,
+                  f"EVENTS = {events} gives the table {want_tr}" if ok else
+                  f"EVENTS = {events}: table {got_tr}, events {got_ev}, outcome {out}; documented table "
+                  f"{want_tr} (a rule with target None forbids the event in that state and must shadow the "
+                  "any-state rule)", bt, bt.node)
